@@ -10,6 +10,7 @@ import (
 
 	"github.com/256dpi/lungo"
 	"github.com/256dpi/lungo/bsonkit"
+	"github.com/256dpi/lungo/mongokit"
 	"go.mongodb.org/mongo-driver/bson"
 	"go.mongodb.org/mongo-driver/bson/primitive"
 	"go.mongodb.org/mongo-driver/mongo"
@@ -320,7 +321,7 @@ func runC17(c *fw.Ctx) {
 
 func c17Call(k *c17Case, idx int) {
 	r, ctx, coll := k.r, k.ctx, k.coll
-	which := idx % 22
+	which := idx % 23
 	filterShapes := func() interface{} {
 		switch r.Intn(3) {
 		case 0:
@@ -634,6 +635,30 @@ func c17Call(k *c17Case, idx int) {
 			}, true)
 			k.engine.Commit(txn)
 			k.engine.Abort(txn)
+		}
+	case 21:
+		// engine level: Transaction.CreateIndex takes an index configuration whose
+		// key and partial filter stay the caller's; Index.Config hands the
+		// specification back
+		key := bson.D{{Key: "sub.deep.list", Value: int32(1)}, {Key: "a", Value: int32(-1)}}
+		part := bson.D{{Key: "a", Value: bson.D{{Key: "$in", Value: bson.A{int32(0), int32(1), int32(2), int32(3), int32(4)}}}}}
+		before = set("Transaction.CreateIndex+Index.Config", key, part)
+		k.args = []interface{}{&key, &part}
+		k.engineLevel = true
+		txn, err := k.engine.Begin(ctx, true)
+		if err == nil {
+			_, cerr := txn.CreateIndex(lungo.Handle{"d", "c"}, "", mongokit.IndexConfig{Key: &key, Partial: &part})
+			if cerr == nil {
+				k.engine.Commit(txn)
+			}
+			k.engine.Abort(txn)
+			if ns := k.engine.Catalog().Namespaces[lungo.Handle{"d", "c"}]; ns != nil {
+				for _, ix := range ns.Indexes {
+					cfg := ix.Config()
+					k.results = append(k.results, cfg.Key, cfg.Partial)
+				}
+			}
+			k.c.Count("index_specifications_checked", 1)
 		}
 	default:
 		// change stream events
